@@ -330,7 +330,7 @@ def run(chk):
     chk.extra["emitted_result_classes"] = classes
     # 3. I->S
     traces = record_sequences(rnd, 40 if quick else 600, 14)
-    wd = VERIF / "out" / "work" / "C14_trace_in"
+    wd = tlc.WORK / "C14_trace_in"
     wd.mkdir(parents=True, exist_ok=True)
     tf = wd / "traces.json"
     tf.write_text(json.dumps([{k: v for k, v in t.items() if k != "_meta"} for t in traces]))
